@@ -1413,9 +1413,9 @@ func c19MustNotSet(path string, m c19Member) bool {
 	case "PPut", "PBulk":
 		return k == "_sync"
 	case "PBlip":
-		return k == "_sync" || k == "_id" || k == "_rev" || k == "_deleted" || k == "_revisions"
+		return k == "_sync" || k == "_id" || k == "_rev" || k == "_cv" || k == "_deleted" || k == "_revisions"
 	case "PImport":
-		return k == "_id" || k == "_rev" || k == "_exp" || k == "_revisions" || k == "_sync"
+		return k == "_id" || k == "_rev" || k == "_cv" || k == "_exp" || k == "_revisions" || k == "_sync"
 	}
 	return false
 }
